@@ -4,6 +4,7 @@ from pyvc.verify import verify_functional
 from . import core_sec as cs
 from . import core_alloc as ca
 from . import core_strat as st_
+from . import algos_sched as sched
 
 UPD = [("date", "date"), ("data", "none"), ("inow", "optint")]
 
@@ -43,6 +44,9 @@ def build():
     reg(st_.update_contract(), st_.verify_update)
     reg(st_.flatten_contract(), None)
     verifiers.pop("bt.core.StrategyBase.flatten")
+    for c in sched.contracts():
+        reg(c)
+    verifiers.pop("bt.algos.RunPeriod.compare_dates")
     inline = {"bt.core.is_zero", "bt.core.SecurityBase.commission"}
     loops = {
         ("bt.core.SecurityBase.allocate", 0): ca.ALLOC_LOOP,
